@@ -69,7 +69,7 @@ func (Prop) Assumptions() []string {
 var derivations = []string{"session", "session", "with_context", "debug", "begin"}
 var readFins = []string{"find", "find", "first", "take", "count", "pluck", "rows", "scan", "find_in_batches", "first_or_init", "count_direct", "count_direct", "pluck_direct", "rows_direct", "scan_direct", "last", "row_direct", "row_direct", "row"}
 var writeFins = []string{"update", "updates", "delete", "create", "update_direct"}
-var methods = []string{"model", "model", "where", "where", "where", "or", "not", "select", "omit", "order", "order", "limit", "offset", "group", "having", "joins", "joins", "distinct", "unscoped", "scopes", "preload", "returning", "returning", "order_clause", "locking", "on_conflict", "table", "model", "attrs", "assign", "where_sub", "where_group", "where_group", "table", "from_clause", "group_clause", "limit_clause", "insert_modifier", "inner_joins", "select_expr", "omit_assoc"}
+var methods = []string{"model", "model", "where", "where", "where", "or", "not", "select", "omit", "order", "order", "limit", "offset", "group", "having", "joins", "joins", "distinct", "unscoped", "scopes", "preload", "returning", "returning", "order_clause", "locking", "on_conflict", "table", "model", "attrs", "assign", "where_sub", "where_group", "where_group", "joins_db", "table", "from_clause", "group_clause", "limit_clause", "insert_modifier", "inner_joins", "select_expr", "omit_assoc"}
 
 func genStep(r *core.Rand, nHandles int, palette []string) Step {
 	st := Step{M: r.Pick(palette), V: r.Intn(6), S: fmt.Sprintf("s%d", r.Intn(50)), N: r.Intn(40)}
@@ -78,7 +78,7 @@ func genStep(r *core.Rand, nHandles int, palette []string) Step {
 	for _, i := range r.Perm(len(cols))[:n] {
 		st.L = append(st.L, cols[i])
 	}
-	if st.M == "where_sub" || st.M == "where_group" {
+	if st.M == "where_sub" || st.M == "where_group" || st.M == "joins_db" {
 		st.H = r.Intn(nHandles)
 	}
 	return st
@@ -186,7 +186,7 @@ func (Prop) Shrink(ci interface{}) []interface{} {
 				used = true
 			}
 			for _, st := range c.Chains[j].Steps {
-				if (st.M == "where_sub" || st.M == "where_group") && st.H == i+1 {
+				if (st.M == "where_sub" || st.M == "where_group" || st.M == "joins_db") && st.H == i+1 {
 					used = true
 				}
 			}
@@ -315,6 +315,16 @@ func apply(db *gorm.DB, st Step, handles []*gorm.DB, cs callerSlices) *gorm.DB {
 			return db.Where(h)
 		}
 		return db.Or(h)
+	case "joins_db":
+		// a reusable handle as the condition argument of a relation join
+		h := handles[0]
+		if st.H < len(handles) && handles[st.H] != nil {
+			h = handles[st.H]
+		}
+		if st.V%2 == 0 {
+			return db.Joins("Company", h)
+		}
+		return db.InnerJoins("Manager", h)
 	case "select":
 		if st.V%3 == 0 {
 			return db.Select(strs(st.L))
@@ -674,7 +684,7 @@ func (c *Case) history() (map[int]obs, []string, error) {
 			return false
 		}
 		for _, st := range ch.Steps {
-			if (st.M == "where_sub" || st.M == "where_group") && st.H <= n && st.H > 0 && handles[st.H] == nil && !done[st.H-1] {
+			if (st.M == "where_sub" || st.M == "where_group" || st.M == "joins_db") && st.H <= n && st.H > 0 && handles[st.H] == nil && !done[st.H-1] {
 				return false // the sub-query handle does not exist yet
 			}
 		}
@@ -729,7 +739,7 @@ func (c *Case) isolated(i int) (obs, error) {
 	run := func(ch Chain) *gorm.DB {
 		db := build(ch.From)
 		for _, st := range ch.Steps {
-			if st.M == "where_sub" || st.M == "where_group" {
+			if st.M == "where_sub" || st.M == "where_group" || st.M == "joins_db" {
 				build(st.H)
 			}
 			db = apply(db, st, handles, cs)
